@@ -189,4 +189,15 @@ theorem c19_counterexample_rename_symbol_bypass :
     (run (init "v0".toList) symRenameTrace).disk = some "renamed(v0)".toList := by
   decide
 
+/-- **Counterexample (open finding C19-alias-keys)**: tracked documents are keyed by the normalised
+request string, so a file reachable through an in-root directory link has several independent
+version counters.  A write through the other key (`aliasWrite`) that lands between client 0's
+unlocked read and its locked section bumps nothing client 0's check looks at: the honest write
+(expected = 1, based on `v0`) succeeds and replaces `B1` unseen.  (Sequentially the content
+comparison with the disk still catches it; the stale read is essential.) -/
+theorem c19_counterexample_alias_keys :
+    ∃ ev ∈ (run (init "v0".toList) aliasTrace).successes,
+      ev.client = 0 ∧ ev.base = some "v0".toList ∧ ev.diskBefore = some "B1".toList := by
+  decide
+
 end TrustVerif.C19
